@@ -618,11 +618,96 @@ pub fn case_json(case: &Case) -> Value {
     json!({"driver": "desmon", "sub": "c14", "case": serde_json::to_value(case).unwrap()})
 }
 
+// -------------------------------------------------------------------------------------------------
+// modules created from a network description through a registry (symbol layer and fallback layer)
+// -------------------------------------------------------------------------------------------------
+
+thread_local! {
+    static NDL_LOG: RefCell<Vec<(String, &'static str)>> = const { RefCell::new(Vec::new()) };
+}
+
+struct NdlEl;
+impl ProcessingElement for NdlEl {
+    fn event_start(&mut self) {
+        NDL_LOG.with(|l| l.borrow_mut().push((current().path().as_str().to_string(), "start")));
+    }
+    fn event_end(&mut self) {
+        NDL_LOG.with(|l| l.borrow_mut().push((current().path().as_str().to_string(), "end")));
+    }
+}
+
+struct NdlMod;
+impl Module for NdlMod {
+    fn at_sim_start(&mut self, _: usize) {
+        NDL_LOG.with(|l| l.borrow_mut().push((current().path().as_str().to_string(), "body")));
+        schedule_in(Message::default(), Duration::from_nanos(1_000_000));
+    }
+    fn handle_message(&mut self, _: Message) {
+        NDL_LOG.with(|l| l.borrow_mut().push((current().path().as_str().to_string(), "body")));
+    }
+    fn at_sim_end(&mut self) -> Result<(), RuntimeError> {
+        NDL_LOG.with(|l| l.borrow_mut().push((current().path().as_str().to_string(), "body")));
+        Ok(())
+    }
+}
+impl des::net::ndl::RegistryCreatable for NdlMod {
+    fn create(_: &ObjectPath, _: &str) -> Self {
+        NdlMod
+    }
+}
+
+/// A simulation-wide element must bracket every event of every module, also of modules that a registry created from
+/// a network description - through a symbol or through its fallback.
+pub fn ndl_stack_probe() -> Vec<Finding> {
+    NDL_LOG.with(|l| l.borrow_mut().clear());
+    let text = "entry: Net\nmodules:\n  \"Net\":\n    submodules:\n      \"known\": \"Known\"\n      \"other[2]\": \"Unknown\"\n  \"Known\": {}\n  \"Unknown\": {}\nlinks: {}\n";
+    let res = vcommon::catch(|| {
+        let mut sim = Sim::new(());
+        sim.set_stack(|| {
+            let mut s = ProcessingStack::default();
+            s.append(NdlEl);
+            s
+        });
+        let mut registry = des::net::ndl::Registry::new().symbol::<NdlMod>("Known").with_fallback(|| NdlMod);
+        let ndl = des::net::ndl::Ndl::from_str(&mut registry, text).map_err(|e| format!("{e}"))?;
+        sim.node("", ndl).map_err(|e| format!("{e}"))?;
+        let rt = Builder::seeded(1).quiet().build(sim.freeze());
+        rt.run().map(|_| ()).map_err(|e| format!("{e}"))
+    });
+    let log = NDL_LOG.with(|l| std::mem::take(&mut *l.borrow_mut()));
+    let mut f = Vec::new();
+    match res {
+        Err(p) => f.push(("panicked", format!("a simulation built from a network description with a global stack panicked: {p}"))),
+        Ok(Err(e)) => f.push(("run-error", format!("a simulation built from a network description with a global stack: {e}"))),
+        Ok(Ok(())) => {
+            for path in ["", "known", "other[0]", "other[1]"] {
+                let seq: Vec<&str> = log.iter().filter(|(p, _)| p == path).map(|(_, h)| *h).collect();
+                // start-up stage, one message, tear-down: three brackets
+                let want = ["start", "body", "end", "start", "body", "end", "start", "body", "end"];
+                if seq != want {
+                    f.push((
+                        "bracket",
+                        format!("module '{path}' (created by the registry from a network description, global stack of one element): hooks and bodies {seq:?}, expected three complete brackets {want:?}"),
+                    ));
+                    break;
+                }
+            }
+        }
+    }
+    f
+}
+
 pub fn cmd(args: &Args) -> Report {
     let mut rep = Report::new("C14");
     let mut rng = Rng::new(args.stream_seed("c14"));
     let cases = args.cases(480_000, 6_000_000);
     for i in 0..cases {
+        if i % 1000 == 3 {
+            rep.count("simulations_built_from_a_description_with_a_global_stack", 1);
+            for (kind, detail) in ndl_stack_probe().into_iter().take(1) {
+                rep.violation(&format!("C14/{kind}"), &detail, json!({"driver": "desmon", "sub": "c14", "ndl_stack_probe": true, "note": "re-run the check with the same seed"}));
+            }
+        }
         let case = gen_case(&mut rng);
         vcommon::mark_case(&format!("c14:{}:{}:{}", args.seed, args.shard, i));
         let (log, result) = execute(&case);
